@@ -670,4 +670,6 @@ def run(chk):
         common.linear_types_rule(chk, P, "C03.R5:frames-are-linear", "a frame and its enter guard cannot be copied (a copy would exit / close the scope twice)",
                                  {"emit::frame::Frame": "each copy closes its scope on drop and can be entered independently: exits no longer pair with enters",
                                   "emit::frame::EnterGuard": "each copy exits on drop: the frame would be exited twice for one enter"})
+    common.wrapper_family_rule(chk, P, "C03", CTXT, 6, forward=False, allow={
+        ("emit_core::runtime::AssertInternal<", "open_disabled"): "the default composes the forwarded open_push with Empty, which is what the inner default does too"})
     return chk
